@@ -172,6 +172,9 @@ def parse_ref(src: str, root_ast: AST) -> AST:
         return node
 
     if isinstance(root_ast, ast.pattern):
+        if cls is ast.MatchStar:
+            return _wrap_parse('match _:\n case [\n', src, '\n]: pass', ('body', 0, 'cases', 0, 'pattern', 'patterns', 0))
+
         return _wrap_parse('match _:\n case (\n', src, '\n): pass', ('body', 0, 'cases', 0, 'pattern'))
 
     if cls is ast.arguments:
@@ -181,16 +184,22 @@ def parse_ref(src: str, root_ast: AST) -> AST:
             return _wrap_parse('(lambda \\\n', src, ' \\\n: _)', ('body', 0, 'value', 'args'))
 
     if cls is ast.arg:
-        return _wrap_parse('def _(\n', src, '\n): pass', ('body', 0, 'args', 'args', 0))
+        try:
+            return _wrap_parse('def _(\n', src, '\n): pass', ('body', 0, 'args', 'args', 0))
+        except SyntaxError:
+            return _wrap_parse('def _(*\n', src, '\n): pass', ('body', 0, 'args', 'vararg'))  # vararg with starred annotation
 
     if cls is ast.keyword:
         return _wrap_parse('_(\n', src, '\n)', ('body', 0, 'value', 'keywords', 0))
 
     if cls is ast.alias:
-        try:
-            return _wrap_parse('from _ import (\n', src, '\n)', ('body', 0, 'names', 0))
-        except SyntaxError:
-            return _wrap_parse('import \\\n', src, '', ('body', 0, 'names', 0))
+        for prefix, suffix in (('from _ import (\n', '\n)'), ('import \\\n', ''), ('from _ import \\\n', '')):
+            try:
+                return _wrap_parse(prefix, src, suffix, ('body', 0, 'names', 0))
+            except SyntaxError as exc:
+                last = exc
+
+        raise last
 
     if cls is ast.withitem:
         return _wrap_parse('with (\n', src, '\n): pass', ('body', 0, 'items', 0))
